@@ -281,7 +281,7 @@ def runObs (c : Config) : CState Row → Nat → List (Op Row) → CState Row ×
 def nonSpecializedOf (ty : String) : Option Bool :=
   match ty with
   | "i32" | "i64" | "sv" | "i32+i64" | "i32+sv" => some false
-  | "utf8" | "i32+utf8" | "bool" | "dict" | "list" | "struct" | "fsb" => some true
+  | "utf8" | "i32+utf8" | "bool" | "dict" | "dicts" | "dicti8" | "dictu8" | "dictu16" | "dictu64" | "list" | "struct" | "fsb" => some true
   | _ => none
 
 def handleCoalesce (ty target limit ops : String) : String :=
